@@ -288,15 +288,20 @@ class PDFXRefStream(PDFBaseXRef):
             raise PDFNoValidXRef("Unexpected EOF - file corrupted?")
         if not isinstance(stream, PDFStream) or stream.get("Type") is not LITERAL_XREF:
             raise PDFNoValidXRef("Invalid PDF stream spec.")
-        size = stream["Size"]
-        index_array = stream.get("Index", (0, size))
+        try:
+            size = stream["Size"]
+            index_array = list(stream.get("Index", (0, size)))
+            (self.fl1, self.fl2, self.fl3) = stream["W"]
+        except (KeyError, TypeError, ValueError):
+            raise PDFNoValidXRef("Invalid /Size, /Index or /W in xref stream")
+        if not all(
+            isinstance(v, int) and v >= 0
+            for v in index_array + [self.fl1, self.fl2, self.fl3]
+        ):
+            raise PDFNoValidXRef("Non-integer /Size, /Index or /W in xref stream")
         if len(index_array) % 2 != 0:
             raise PDFSyntaxError("Invalid index number")
         self.ranges.extend(cast(Iterator[Tuple[int, int]], choplist(2, index_array)))
-        try:
-            (self.fl1, self.fl2, self.fl3) = stream["W"]
-        except (KeyError, TypeError, ValueError):
-            raise PDFNoValidXRef("Invalid /W in xref stream")
         assert self.fl1 is not None and self.fl2 is not None and self.fl3 is not None
         self.data = stream.get_data()
         self.entlen = self.fl1 + self.fl2 + self.fl3
